@@ -1215,10 +1215,13 @@ def check_chp_physics(case):
     tg = eao.assets.Timegrid(start, start + pd.Timedelta(T, 'h'), freq='h')
     P, Hn, G = eao.assets.Node('P'), eao.assets.Node('H'), eao.assets.Node('G')
     conv, share, eff, cons, sfuel = case.get('conv', .5), case.get('share', .5), case.get('eff', .8), case.get('cons', .2), case.get('start_fuel', .3)
+    if case.get('conv_series'):
+        # time-varying conversion factor (given as a series like a price): the virtual output of step t uses the factor of step t
+        conv = np.asarray([rng.choice([1., .25]) for _ in range(T)])
     mn, mx, ramp = case.get('min_cap', 1.), case.get('max_cap', 4.), case.get('ramp')
     kw = dict(min_runtime=case.get('mr', 0), min_downtime=case.get('md', 0), time_already_running=case.get('tar', 0), time_already_off=case.get('tao', 0),
               last_dispatch=case.get('last', 0.))
-    chp = eao.assets.CHPAsset(name='chp', nodes=[P, Hn, G], min_cap=mn, max_cap=mx, extra_costs=.2, conversion_factor_power_heat=conv, max_share_heat=share,
+    chp = eao.assets.CHPAsset(name='chp', nodes=[P, Hn, G], min_cap=mn, max_cap=mx, extra_costs=.2, conversion_factor_power_heat='conv' if case.get('conv_series') else conv, max_share_heat=share,
                               ramp=ramp, start_costs=.5, running_costs=.1, start_fuel=sfuel, fuel_efficiency=eff, consumption_if_on=cons, **kw)
     assets = [chp, eao.assets.SimpleContract(name='pm', nodes=P, price='p', min_cap=-10., max_cap=10.),
               eao.assets.SimpleContract(name='hd', nodes=Hn, min_cap=-case.get('heat', .5), max_cap=-case.get('heat', .5)),
@@ -1227,6 +1230,9 @@ def check_chp_physics(case):
     if case.get('order'):
         assets.reverse()
     prices = {'p': np.asarray([float(rng.choice([-4, 1, 3, 6, 9, 12])) for _ in range(T)]), 'hb': np.full(T, 6.), 'g': np.full(T, float(rng.choice([1, 2, 4])))}
+    if case.get('conv_series'):
+        prices['conv'] = conv
+        prices['hb'] = np.asarray([float(rng.choice([0.5, 6., 12.])) for _ in range(T)])      # heat worth more / less from step to step
     pf = eao.portfolio.Portfolio(assets)
     op = pf.setup_optim_problem(prices, tg)
     res = op.optimize()
